@@ -32,6 +32,9 @@ enum Wait {
     ActorBlocked(usize),
     /// until the I/O thread has nothing left to do (idle at its gate) or is gone
     IoQuiet,
+    /// fine mode: the I/O thread parked inside an iteration (after taking a message / before
+    /// sending to a client); always enabled
+    FineStep,
 }
 
 enum Status {
@@ -131,6 +134,10 @@ pub struct EnvConfig {
     pub horizon_ns: u64,
     /// maximum number of scheduling steps before the execution is abandoned (machinery error)
     pub max_steps: usize,
+    /// fine mode: every message the I/O thread takes from a client queue and every message it
+    /// sends to a client is a scheduling point of its own (an I/O-loop iteration is no longer
+    /// atomic with respect to the clients)
+    pub fine: bool,
 }
 
 impl Default for EnvConfig {
@@ -149,6 +156,7 @@ impl Default for EnvConfig {
             time: true,
             horizon_ns: 3_600_000_000_000,
             max_steps: 5000,
+            fine: false,
         }
     }
 }
@@ -371,6 +379,7 @@ impl St {
                     Status::Parked(_) => !self.actor_enabled(*t),
                     Status::Running => false,
                 },
+                Wait::FineStep => true,
                 Wait::IoQuiet => !self.io_exists() || self.io_gone() || (self.io_idle && !self.activity_since_idle && matches!(self.actors[IO].status, Status::Parked(Wait::Gate))),
             },
             _ => false,
@@ -512,6 +521,7 @@ impl St {
                     Status::Parked(Wait::HJoin(t)) => format!("join:{}", self.actors[*t].name),
                     Status::Parked(Wait::ActorBlocked(t)) => format!("until-blocked:{}", self.actors[*t].name),
                     Status::Parked(Wait::IoQuiet) => "until-io-quiet".to_string(),
+                    Status::Parked(Wait::FineStep) => "step".to_string(),
                     _ => "?".to_string(),
                 };
                 format!("{}:{}", a.name, w)
@@ -1054,14 +1064,25 @@ impl Controller for World {
                     let e = c.occ.entry(k).or_insert(0);
                     *e = e.saturating_sub(1);
                 }
+                let fine = st.cfg.fine;
+                drop(st);
+                if fine {
+                    self.park(IO, Wait::FineStep);
+                }
             }
             Point::IoFrame(f) => {
                 let mut st = self.lock();
                 st.io_events.push(IoEvent::Frame(f.clone()));
             }
             Point::IoToClient(t) => {
-                let mut st = self.lock();
-                st.io_events.push(IoEvent::ToClient(t));
+                let fine = {
+                    let mut st = self.lock();
+                    st.io_events.push(IoEvent::ToClient(t));
+                    st.cfg.fine
+                };
+                if fine {
+                    self.park(IO, Wait::FineStep);
+                }
             }
             Point::IoExit { panicking } => {
                 let mut st = self.lock();
